@@ -21,7 +21,7 @@ func (e *c11Env) snapshot() []int64 {
 	ipid := func(key string) int64 {
 		for id := 1; id <= 11; id++ {
 			s, _, _ := c11IP(id)
-			if s == key {
+			if s == key || "::ffff:"+s == key {
 				return int64(id)
 			}
 		}
